@@ -212,7 +212,7 @@ def render_wf(rng, e):
         head = '(%s)' % l['bid'] if l['bid'] is not None else str(l['m'])
         s += sep() + head + ' ' + ' '.join('='.join(ref(c) for c in rk) for rk in l['ranks']) + ' 0'
         if rng.random() < 0.15:
-            s += ' # trailing 9 9 0\n'
+            s += ' # trailing 9 9 0' + rng.choice(['\n', '\n', '\r\n', '\r', '\x0c', '\x85', '\u2028', '\x1c'])
     s += sep() + '0'
     for n in e['names']:
         s += sep() + '"%s"' % n
